@@ -293,15 +293,15 @@ def run(ctx):
     lp, nfiles = corpus_list(ctx)
     ctx.extra["real_files"] = nfiles
     jobs = [
-        ("c19", ["--mode", "random", "--n", 80 if q else 3000], "random.ndjson"),
+        ("c19", ["--mode", "random", "--n", 60 if q else 3000], "random.ndjson"),
         ("c19", ["--mode", "enum", "--maxsz", 1 if q else 3], "enum.ndjson"),
         ("c19", ["--mode", "files", "--list", lp], "files.ndjson"),
         ("c19", ["--mode", "link", "--n", 6 if q else 300, "--dir", os.path.join(ctx.work, "link")], "link.ndjson"),
-        ("c19", ["--mode", "code", "--n", 21 if q else 700], "code.ndjson"),
-        ("c19", ["--mode", "json", "--n", 30 if q else 1500, "--dir", os.path.join(ctx.work, "json")], "json.ndjson"),
+        ("c19", ["--mode", "code", "--n", 14 if q else 700], "code.ndjson"),
+        ("c19", ["--mode", "json", "--n", 24 if q else 1500, "--dir", os.path.join(ctx.work, "json")], "json.ndjson"),
     ]
     paths = ctx.record_many(jobs, parallel=4)
-    validate(ctx, paths, 8 if q else 32)
+    validate(ctx, paths, 4 if q else 32)
     ctx.extra["bases"] = "0, 0x10000, 2^31 (ELF32) / 2^40 (ELF64)"
     ctx.extra["exhaustive_scope"] = ("every layout of two PT_LOADs with memsz <= %d sliding over each other (all filesz <= memsz), "
                                      "at three bases" % (1 if q else 3))
@@ -332,14 +332,18 @@ def replay(ctx, path):
 
 def selftest(ctx):
     """Binding self-test: (1) the writer check, (2) corrupt recorded answers (one byte of a
-    section, a permission bit, a section address, a dropped section, an entry address, a dropped
-    symbol, the architecture name, a relocated word) and expect exactly those events to be
-    rejected in addition to the ones the unchanged trace already rejects."""
+    section, a permission bit, a section address, a dropped section, an entry address, a ghost
+    symbol, the architecture name, a dropped / unjustified function or an unclosed call target
+    of a lifted program; on single images, linked sets, code images and JSON specifications) and
+    expect exactly those events to be rejected in addition to the ones the unchanged trace
+    already rejects."""
     ctx.build(["c19"])
     writer_check(ctx, 24)
     p = ctx.record("c19", ["--mode", "random", "--n", 40], "selftest.ndjson")
     p2 = ctx.record("c19", ["--mode", "link", "--n", 6, "--dir", os.path.join(ctx.work, "st-link")], "selftest-link.ndjson")
-    evs = ctx.read_ndjson(p) + ctx.read_ndjson(p2)
+    p3 = ctx.record("c19", ["--mode", "code", "--n", 7], "selftest-code.ndjson")
+    p4 = ctx.record("c19", ["--mode", "json", "--n", 12, "--dir", os.path.join(ctx.work, "st-json")], "selftest-json.ndjson")
+    evs = ctx.read_ndjson(p) + ctx.read_ndjson(p2) + ctx.read_ndjson(p3) + ctx.read_ndjson(p4)
     base_path = p + ".all"
     with open(base_path, "w") as f:
         for e in evs:
@@ -386,6 +390,17 @@ def selftest(ctx):
             bad.add(ln)
         elif e["ev"] == "pentry" and k % 3 == 0:
             ok[2] ^= 1
+            bad.add(ln)
+        elif e["ev"] in ("program", "rprogram") and ok["funcs"]:
+            how = k % 3
+            if how == 0:
+                ok["funcs"].pop(0)                      # an entry / a call target without its function
+            elif how == 1:
+                ok["funcs"].append({"addr": limbs(0x7777000), "name": "ghost", "calls": []})   # not justified
+            elif e["ev"] == "rprogram":
+                ok["funcs"][0]["calls"].append(limbs(0x7777040))                                  # not closed
+            else:
+                continue
             bad.add(ln)
     q = p + ".mut"
     with open(q, "w") as f:
